@@ -91,9 +91,9 @@ theorem mkSI_own (s : VMState) (calls : List Frame) (mp : Int) (k : Nat) (stk : 
     (mem : List (Int × Val)) (out : World) : mkSI s calls mp k stk ⟨mem, itOf s⟩ out = mkS s calls mp k stk mem out := rfl
 
 /-- **The heap invariant** the simulation threads along every run: no object cell has a data field named
-`len` or `push` (on such an object `o.len()` would call the field's value instead of the builtin method). -/
+like a builtin method (on such an object `o.len()` would call the field's value instead of the method). -/
 def HeapInv (h : Array Cell) : Prop :=
-  ∀ (a : Nat) (fs : List (String × Val)), h[a]? = some (Cell.obj fs) → fs.lookup "len" = none ∧ fs.lookup "push" = none
+  ∀ (a : Nat) (fs : List (String × Val)), h[a]? = some (Cell.obj fs) → ∀ k ∈ methNames, fs.lookup k = none
 
 /-- Inside the activation `⟨fn, ·⟩ :: rest` with memory pointer `mp`: from `(ip, stk, mem, out)`
 the VM gets to `(ip', stk', mem', out')` without interrupt or panic, and the heap invariant is
